@@ -15,7 +15,7 @@ TEXT = {
          "6 C02", "Lean 4 proof over hand-written model + differential correspondence (match decisions and locations)"),
  "C03": ("Lean theorems: the rewrite rule (the matched code is an instance of the '-' pattern and the generated code an instance of the '+' pattern under one substitution, the site's bindings, for every pattern and every tree); fresh copies of the captures; unbound metavariable is an error; the only silent skip is non-assignability. Tie: replaced subtrees of the in-process engine and of the built binary against the model; a site both sides matched and only the model rewrote is a violation; a change the model cannot generate must make the binary fail and leave the file alone; a table of '+' sides whose tokens must arrive byte for byte, with hand-written expected files.",
          "6 C03", "Lean 4 proof over hand-written model + differential correspondence (content at rewritten sites)"),
- "C04": ("Lean theorems: the list matcher with elision succeeds iff some choice of runs exists (sound and complete against the inductive spec) and picks the leftmost-shortest solution; runs are reproduced unchanged; the run recorded for an elision is still there when the whole pattern has matched, provided elisions have distinct patch positions (evaluated per case; counterexample = repaired defect F24). Tie: in-process engine and built binary against the model on patterns with 1..3 elisions (also at the top level of statement patterns, adjacent, with a shared metavariable) and empty/non-empty runs.",
+ "C04": ("Lean theorems: the list matcher with elision succeeds iff some choice of runs exists (sound and complete against the inductive spec) and picks the leftmost-shortest solution; runs are reproduced unchanged; the run recorded for an elision is still there when the whole pattern has matched, provided elisions have distinct patch positions (evaluated per case; counterexample = repaired defect F24). From the bytes of the patch: a context line is reported at one place in both versions of a change, every byte of a version at its line and column in the patch file (for every patch file, through the model of sectioning and splitPatch), and rewrite's adjustments take every elision back to its '...' (under AugsOK, evaluated on every version). Tie: stream split (splitPatch and the recorded place of every elision, implementation vs the model's chain from the patch bytes); in-process engine and built binary against the model on patterns with 1..3 elisions (also at the top level of statement patterns, adjacent, with a shared metavariable) and empty/non-empty runs.",
          "6 C04", "Lean 4 proof over hand-written model + differential correspondence (decision, locations, content)"),
  "C05": ("Lean frame theorems: with the slots of the matched sites blanked the tree after the replacement loop, and after the new nodes were given identities, is the tree before it (for every list of sites, values and orders); slot updates leave every subtree not containing the parent untouched; correspondence (in-process engine and built binary) checks that every change of the implementation lies inside a site and that the neighbours of a rewritten run are the original elements.",
          "6 C05", "Lean 4 proof over hand-written model + differential correspondence (changes outside sites)"),
@@ -42,7 +42,7 @@ TEXT["C15"] = ("Lean theorems over an abstract file system: membership in the wa
 
 TEXT["C08"] = ("Lean theorems: the replacers never produce a panic outcome (every failure is an error value), the '...' scanner is defined by well-founded recursion on the remaining tokens (termination checked by the kernel) and the pre-fix loop is refuted for every fuel; sectioning and metavariable parsing are total by construction. Tie: truncated / byte-mutated / ill-typed patches through patch.Parse+Apply under watchdogs, the CLI under timeout, augment.Augment vs the Lean finder+rewrite on every prefix of patch bodies, engine outcome class vs the model. Partial: go/scanner, go/parser, go/printer, imports.Process, intervalset and memory use are not modelled.",
          "6 C08", "Lean 4 proof (totality / no-panic / well-founded scanner) + differential and watchdog streams on malformed input")
-TEXT["C13"] = ("Lean theorems: '#' lines never reach the section state machine and descriptions are exactly the run above the header; names are only stored; the association of '...' depends on patch positions only through their order (connectDots commutes with every order-preserving relabelling). Tie: layout transformations of generated patches must leave the real engine's canonical result unchanged; descriptions via section.Split vs model. Partial: go/scanner+go/parser layout-insensitivity is assumed.",
+TEXT["C13"] = ("Lean theorems: '#' lines never reach the section state machine and descriptions are exactly the run above the header; names are only stored; the association of '...' depends on patch positions only through their order (connectDots commutes with every order-preserving relabelling). An unchanged line as a '-'/'+' pair or once with a blank gives each version the same bytes up to that blank (splitPatch model, stream split). Tie: layout transformations of generated patches must leave the real engine's canonical result unchanged; descriptions via section.Split vs model. Partial: go/scanner+go/parser layout-insensitivity is assumed.",
          "6 C13", "Lean 4 proof (section model, relabelling invariance) + metamorphic layout stream on the real engine")
 TEXT["C19"] = ("Lean theorems: a rejected change name is reported at the byte that is the offending character of that header line; junk where a header is expected at column 1 of its line; the metavariable scratch buffer is the patch lines byte for byte (offset mapping). Tie: section.Split, parse.Parse, engine.Compile and patch.Parse on multi-change patches with one injected fault vs the Lean model (Sec.split, parseMeta over go/scanner's tokens, compileMetaErrs, mapPos) and vs the injection point; CLI exit/stderr/no rewrite.",
          "6 C19", "Lean 4 proof over section/meta model + differential front stream with injected faults")
@@ -81,7 +81,7 @@ def main():
     m = {
         "version": 1,
         "setup_cmd": "cd /verif && ./setup.sh",
-        "hooks": {"guard": "verif", "enable": "go build -tags verif -overlay /verif/.build/overlay.json ./internal/zzverif (harness sources live in /verif/harness and are injected at build time: /verif/harness/zzverif as package internal/zzverif, /verif/harness/astdiff/zz_verif_dump.go as one added file of package internal/astdiff that prints its snapshot values, /verif/harness/engine/zz_verif_changelog.go as one added file of package internal/engine that lists the two interval sets of a Changelog; nothing is committed to /repo)",
+        "hooks": {"guard": "verif", "enable": "go build -tags verif -overlay /verif/.build/overlay.json ./internal/zzverif (harness sources live in /verif/harness and are injected at build time: /verif/harness/zzverif as package internal/zzverif, /verif/harness/astdiff/zz_verif_dump.go as one added file of package internal/astdiff that prints its snapshot values, /verif/harness/engine/zz_verif_changelog.go as one added file of package internal/engine that lists the two interval sets of a Changelog, /verif/harness/parse/zz_verif_split.go as one added file of package internal/parse that calls the unexported splitPatch; nothing is committed to /repo)",
                   "baseline_off_cmd": "cd /repo && GOFLAGS=-mod=mod go test -vet=off -count=1 ./...", "source_commits": [], "add_only": True},
         "engines": [{"name": "lean-model+go-harness", "path": "/verif/lean, /verif/harness, /verif/lib",
                      "serves_properties": [c["property_id"] for c in checks],
